@@ -20,6 +20,7 @@ use std::pin::Pin;
 use std::task::{Context, Poll, Waker};
 
 use super::*;
+use std::cmp::PartialEq as PEq;
 use crate::consensus::cert::kani_certstub::opaque;
 use crate::consensus::kani_fix::{block_hash, fixture, Fix};
 use crate::verif_std as vs;
@@ -66,7 +67,10 @@ pub(super) mod standin {
     impl From<crate::consensus::ConsensusMessage> for Msg {
         fn from(m: crate::consensus::ConsensusMessage) -> Self {
             let r = match &m {
-                crate::consensus::ConsensusMessage::Vote(v) => Msg(Some(super::ent_of(v))),
+                crate::consensus::ConsensusMessage::Vote(v) => {
+                    super::pool_feed(v);
+                    Msg(Some(super::ent_of(v)))
+                }
                 crate::consensus::ConsensusMessage::Cert(_) => Msg(None),
             };
             std::mem::forget(m);
@@ -75,6 +79,7 @@ pub(super) mod standin {
     }
     impl From<crate::consensus::Vote> for Msg {
         fn from(v: crate::consensus::Vote) -> Self {
+            super::pool_feed(&v);
             Msg(Some(super::ent_of(&v)))
         }
     }
@@ -98,6 +103,18 @@ pub(super) mod standin {
         }
         std::mem::forget(f);
     }
+}
+
+/// Stub for `<BlockHash as PartialEq>::eq` (Kani only): the same comparison on four 64-bit words
+/// instead of a 32-iteration `memcmp` through byte pointers (when one operand is reached through
+/// a pointer with several possible targets - the state of a symbolic slot - every byte read is a
+/// case split over all of them).
+#[cfg(kani)]
+pub(crate) fn root_eq(a: &BlockHash, b: &BlockHash) -> bool {
+    // SAFETY: BlockHash is a transparent wrapper chain around [u8; 32]
+    let x = unsafe { std::mem::transmute_copy::<BlockHash, [u64; 4]>(a) };
+    let y = unsafe { std::mem::transmute_copy::<BlockHash, [u64; 4]>(b) };
+    (x[0] == y[0]) & (x[1] == y[1]) & (x[2] == y[2]) & (x[3] == y[3])
 }
 
 /// Stub for `log::max_level` (Kani only): no logger installed, logging is off.
@@ -161,11 +178,22 @@ const LOGCAP: usize = 16;
 /// All ghost state in ONE static with a unique first field (README pitfall).
 struct Ghost {
     magic: [u64; 2],
+    /// votes recorded so far (emission order)
     n: usize,
     log: [u64; LOGCAP],
     certs: usize,
     timers: usize,
     overflow: bool,
+    /// pool-side model of the node's own votes (harnesses that feed it): `check_slashable_offence`
+    /// of the pool is asked about every vote at the moment it is broadcast
+    pool: Option<crate::consensus::pool::kani_c05_reexp::OwnVotes>,
+    fed: usize,
+    /// the event being delivered
+    cur: E,
+    /// the reference monitor; consulted at the moment a vote is broadcast (the vote's kind and
+    /// slot are then still the constants of the code path that cast it, which keeps the monitor
+    /// almost free for CBMC; checking a symbolic log afterwards cost 80 k steps per harness)
+    mon: Mon,
 }
 static mut G: Ghost = Ghost {
     magic: [0xc05c_05c0_5c05_0001, 0x9e37_79b9_7f4a_7c15],
@@ -174,13 +202,16 @@ static mut G: Ghost = Ghost {
     certs: 0,
     timers: 0,
     overflow: false,
+    pool: None,
+    fed: 0,
+    cur: E { k: 255, s: 0, t: 0, ps: 0, pt: 0 },
+    mon: Mon::new(),
 };
 
 /// tag of a block hash: `block_hash(t)` -> t (0 = genesis); anything else 255
 fn tag_of(h: &BlockHash) -> u8 {
     // SAFETY: BlockHash is a transparent wrapper chain around [u8; 32]
-    let b = unsafe { std::mem::transmute_copy::<BlockHash, [u8; 32]>(h) };
-    let w = vs::bytes_to_words(&b);
+    let w = unsafe { std::mem::transmute_copy::<BlockHash, [u64; 4]>(h) };
     if w[1] == 0 && w[2] == 0 && w[3] == 0 && w[0] < 255 { w[0] as u8 } else { 255 }
 }
 
@@ -224,11 +255,26 @@ fn ent_of(v: &Vote) -> Ent {
 }
 fn record_vote(e: Ent) {
     unsafe {
+        let cur = G.cur;
+        G.mon.check_vote(cur, e);
         if G.n < LOGCAP {
             G.log[G.n] = e.pack();
             G.n += 1;
         } else {
             G.overflow = true;
+        }
+    }
+}
+/// Shows the vote to the pool's slashing check (re-broadcasts of a standstill bundle excepted).
+fn pool_feed(v: &Vote) {
+    unsafe {
+        if G.cur.k == STANDSTILL {
+            return;
+        }
+        if let Some(p) = G.pool.as_mut() {
+            let offence = p.feed(v);
+            G.fed += 1;
+            vcheck!(!offence, "the pool reports the node's own votes as a slashable combination");
         }
     }
 }
@@ -241,7 +287,10 @@ fn record_cert() {
 impl All2All for RecA2A {
     async fn broadcast(&self, msg: &ConsensusMessage) -> std::io::Result<()> {
         match msg {
-            ConsensusMessage::Vote(v) => record_vote(ent_of(v)),
+            ConsensusMessage::Vote(v) => {
+                pool_feed(v);
+                record_vote(ent_of(v))
+            }
             ConsensusMessage::Cert(_) => record_cert(),
         }
         Ok(())
@@ -295,12 +344,22 @@ struct World {
 }
 
 /// A fresh node: the real `Votor::new` (genesis slot pre-populated, timers of window 0 armed).
-fn fresh() -> World {
+/// `with_pool`: additionally a pool-side model that is shown every vote the node casts.
+fn fresh(with_pool: bool) -> World {
     unsafe {
         G.n = 0;
         G.certs = 0;
         G.timers = 0;
         G.overflow = false;
+        G.mon = Mon::new();
+        G.fed = 0;
+        G.pool = None;
+        if with_pool {
+            // stakes 9 and 1: the node (index 1) alone reaches no threshold
+            let pfx = fixture(&[9, 1], OWN);
+            G.pool = Some(crate::consensus::pool::kani_c05_reexp::OwnVotes::new(pfx.epoch.clone()));
+            std::mem::forget(pfx);
+        }
     }
     #[cfg(kani)]
     {
@@ -346,6 +405,8 @@ const CNFALL: u8 = 9; // CertCreated(notar-fallback cert for (s, t))
 const CSKIP: u8 = 10; // CertCreated(skip cert for s)
 const CFAST: u8 = 11; // CertCreated(fast-final cert for (s, t))
 const CFINAL: u8 = 12; // CertCreated(final cert for s)
+/// Standstill(s, [final cert for s], [the node's own notar vote for (1, block 1), its skip vote for slot ps])
+const STANDSTILL: u8 = 13;
 
 #[derive(Clone, Copy)]
 struct E {
@@ -373,7 +434,6 @@ const fn evb(k: u8, s: u8, t: u8) -> E {
 // ---------------------------------------------------------------------------------------------
 const NS: usize = 8; // slots 0..7
 const NT: usize = 8; // block tags 0..7 (0 = genesis)
-const MAXNEW: usize = 8; // votes one event can produce (a cascade over one window: notar + final per slot)
 
 #[derive(Clone, Copy)]
 struct Mon {
@@ -388,7 +448,6 @@ struct Mon {
     bp: [[u8; NT]; NS],
     /// parents announced ready for the slot (first slots of windows): bit ps * 8 + pt
     pr: [u64; NS],
-    seen: usize,
     n_notar: u8,
     n_skip: u8,
     n_final: u8,
@@ -396,11 +455,12 @@ struct Mon {
     n_nf: u8,
     n_quiet: u8,
     n_ignored: u8,
+    n_rebroadcast: u8,
 }
 
 impl Mon {
     /// the fresh node: genesis counts as notarized in slot 0
-    fn new() -> Mon {
+    const fn new() -> Mon {
         let mut m = Mon {
             init: [0; NS],
             fin: [false; NS],
@@ -409,7 +469,6 @@ impl Mon {
             cert: [0; NS],
             bp: [[0; NT]; NS],
             pr: [0; NS],
-            seen: 0,
             n_notar: 0,
             n_skip: 0,
             n_final: 0,
@@ -417,6 +476,7 @@ impl Mon {
             n_nf: 0,
             n_quiet: 0,
             n_ignored: 0,
+            n_rebroadcast: 0,
         };
         m.init[0] = 2;
         m
@@ -453,6 +513,12 @@ impl Mon {
         vcheck!((x.slot as usize) < NS && (x.tag as usize) < NT, "vote for a slot or block nobody told the node about");
         let s = x.slot as usize;
         let t = x.tag as usize;
+        if e.k == STANDSTILL {
+            // not a new vote: the bundle's votes are re-broadcast as they are
+            vcheck!((x.kind == NOTAR && x.slot == 1 && x.tag == 1) || (x.kind == SKIP && x.slot == e.ps), "standstill: a vote outside the bundle is broadcast");
+            self.n_rebroadcast += 1;
+            return;
+        }
         match x.kind {
             NOTAR => {
                 vcheck!(self.init[s] == 0, "second initial vote in a slot (notar after notar or skip)");
@@ -494,26 +560,6 @@ impl Mon {
             }
         }
     }
-
-    /// Checks the votes recorded since the last call, in emission order.
-    fn absorb(&mut self, e: E) {
-        let (n, overflow) = unsafe { (G.n, G.overflow) };
-        vcheck!(!overflow, "VS-UNSUPPORTED: vote log full");
-        if n == self.seen {
-            self.n_quiet += 1;
-        }
-        let mut j = 0;
-        while j < MAXNEW {
-            let i = self.seen + j;
-            if i < n {
-                let x = Ent::unpack(unsafe { G.log[i] });
-                self.check_vote(e, x);
-            }
-            j += 1;
-        }
-        vcheck!(n <= self.seen + MAXNEW, "VS-UNSUPPORTED: more votes in one event than the harness inspects");
-        self.seen = n;
-    }
 }
 
 // ---------------------------------------------------------------------------------------------
@@ -545,6 +591,13 @@ fn deliver(w: &mut World, e: E) {
         PREADY => run!(w.votor.handle_pool_event(PoolEvent::ParentReady { slot: slot(e.s), parent: (slot(e.ps), block_hash(e.pt)) })),
         S2N => run!(w.votor.handle_pool_event(PoolEvent::SafeToNotar((slot(e.s), block_hash(e.t))))),
         S2S => run!(w.votor.handle_pool_event(PoolEvent::SafeToSkip(slot(e.s)))),
+        STANDSTILL => {
+            let certs = vec![mk_cert(w, 4, e.s, 0)];
+            let key = &w.votor.voting_key;
+            let id = w.votor.validator_index;
+            let votes = vec![Vote::new_notar(slot(1), block_hash(1), key, id), Vote::new_skip(slot(e.ps), key, id)];
+            run!(w.votor.handle_pool_event(PoolEvent::Standstill(slot(e.s), certs, votes)))
+        }
         CNOTAR => deliver_cert(w, 0, e.s, e.t),
         CNFALL => deliver_cert(w, 1, e.s, e.t),
         CSKIP => deliver_cert(w, 2, e.s, e.t),
@@ -561,6 +614,9 @@ fn deliver(w: &mut World, e: E) {
 fn deliver_cert(w: &mut World, kind: u8, s: u8, t: u8) {
     #[cfg(kani)]
     {
+        // two equal certificate objects: one inside the event for `should_ignore_pool_event`, one for
+        // `handle_cert_created` (a certificate taken back out of the event has lost its constant
+        // discriminant, too)
         let ev = PoolEvent::CertCreated(mk_cert(w, kind, s, t));
         let ignored = w.votor.should_ignore_pool_event(&ev);
         std::mem::forget(ev);
@@ -577,19 +633,30 @@ fn deliver_cert(w: &mut World, kind: u8, s: u8, t: u8) {
 }
 
 /// One step of a history: the environment may produce `e` now; it is shown to the node; the
-/// votes the node casts in response are checked.
-fn step(w: &mut World, m: &mut Mon, e: E) {
-    vs::assume(m.env_allows(e));
-    m.note_event(e);
-    let certs_before = unsafe { G.certs };
+/// votes the node casts in response are checked as they are broadcast (`record_vote`).
+fn step(w: &mut World, e: E) {
+    let (votes_before, certs_before) = unsafe {
+        vs::assume(G.mon.env_allows(e));
+        G.mon.note_event(e);
+        G.cur = e;
+        (G.n, G.certs)
+    };
     deliver(w, e);
-    m.absorb(e);
-    if e.k >= CNOTAR {
-        // a certificate of a slot the node has not pruned is re-broadcast, whatever the state of the slot
-        let certs_after = unsafe { G.certs };
-        vcheck!(certs_after <= certs_before + 1, "certificate broadcast more than once");
-        if certs_after == certs_before {
-            m.n_ignored += 1;
+    unsafe {
+        vcheck!(!G.overflow, "VS-UNSUPPORTED: vote log full");
+        if G.n == votes_before {
+            G.mon.n_quiet += 1;
+        }
+        if e.k == STANDSTILL {
+            // never ignored, whatever the state of the slot it names
+            vcheck!(G.certs == certs_before + 1 && G.n == votes_before + 2, "standstill bundle not re-broadcast exactly");
+        } else if e.k >= CNOTAR {
+            vcheck!(G.certs <= certs_before + 1, "certificate broadcast more than once");
+            if G.certs == certs_before {
+                G.mon.n_ignored += 1;
+            }
+        } else {
+            vcheck!(G.certs == certs_before, "certificate broadcast without a certificate event");
         }
     }
 }
@@ -597,30 +664,33 @@ fn step(w: &mut World, m: &mut Mon, e: E) {
 /// A concrete prefix, then K events each chosen by the solver among the family's menu.
 macro_rules! history {
     ($name:ident, prefix [$($p:expr),* $(,)?], $k:literal of [$($e:expr),+ $(,)?], |$m:ident| $covers:block) => {
+        history!($name, pool false, prefix [$($p),*], $k of [$($e),+], |$m| $covers);
+    };
+    ($name:ident, pool $pool:literal, prefix [$($p:expr),* $(,)?], $k:literal of [$($e:expr),+ $(,)?], |$m:ident| $covers:block) => {
         #[cfg_attr(kani, kani::proof)]
         #[cfg_attr(kani, kani::stub(crate::crypto::aggsig::SecretKey::sign, sign_id_stub))]
         #[cfg_attr(kani, kani::stub(log::max_level, log_off))]
+        #[cfg_attr(kani, kani::stub(<crate::crypto::merkle::DoubleMerkleRoot as PEq>::eq, root_eq))]
         #[cfg_attr(kani, kani::unwind(10))]
         #[cfg_attr(verif_replay, test)]
         fn $name() {
             const MENU: &[E] = &[$($e),+];
-            let mut w = fresh();
-            let mut mon = Mon::new();
-            $( step(&mut w, &mut mon, $p); )*
+            let mut w = fresh($pool);
+            $( step(&mut w, $p); )*
             let mut i = 0;
             while i < $k {
                 let sel = vs::any_below(MENU.len() as u8) as usize;
                 let mut idx = 0;
                 $(
                     if sel == idx {
-                        step(&mut w, &mut mon, $e);
+                        step(&mut w, $e);
                     }
                     idx += 1;
                 )+
                 let _ = idx;
                 i += 1;
             }
-            let $m = &mon;
+            let $m = unsafe { &G.mon };
             $covers;
             std::mem::forget(w);
         }
@@ -646,13 +716,18 @@ const RDY_P: E = pready(4, 3, 6);
 const RDY_Q: E = pready(4, 3, 7);
 
 // blocks arriving in any order, two competing chains
-history!(c05_g_blocks_k2, prefix [], 2 of [A1, B1, A2, B2, A3], |m| {
+history!(c05_g_blocks_k2, prefix [], 2 of [A1, B1, A2, B2], |m| {
     vcover!(m.n_notar >= 2, "two notar votes are cast");
     vcover!(m.n_quiet >= 1, "a block is not voted for");
 });
-history!(c05_g_blocks_k3, prefix [], 3 of [A1, B1, A2, B2, A3], |m| {
-    vcover!(m.n_notar >= 3, "three notar votes are cast");
+history!(c05_g_blocks_k3, prefix [], 3 of [A1, B1, A2, B2], |m| {
+    vcover!(m.n_notar >= 2 && m.n_quiet >= 1, "two notar votes are cast, one block is not voted for");
     vcover!(m.n_quiet >= 2, "two blocks are not voted for");
+});
+// one chain over the whole window, in any order (pending blocks, cascade)
+history!(c05_g_chain_k3, prefix [], 3 of [A1, A2, A3], |m| {
+    vcover!(m.n_notar >= 3, "three notar votes are cast");
+    vcover!(m.n_quiet >= 2, "two blocks wait for their parents");
 });
 // blocks against timeouts and invalid blocks
 history!(c05_g_timeouts_k2, prefix [], 2 of [A1, A2, ev(TIMEOUT, 1), ev(TIMEOUT, 3), ev(INVALID, 2), ev(FIRST, 1)], |m| {
@@ -675,7 +750,7 @@ history!(c05_g_final_k3, prefix [A1], 3 of [evb(CNOTAR, 1, 1), evb(CNOTAR, 1, 2)
     vcover!(m.n_nf >= 1 && m.n_sf >= 1, "both fallback votes are cast");
 });
 // after the final vote: the slot is retired
-history!(c05_g_retired_k2, prefix [A1, evb(CNOTAR, 1, 1)], 2 of [evb(S2N, 1, 2), ev(S2S, 1), ev(TIMEOUT, 1), ev(INVALID, 1), B1, evb(CNOTAR, 1, 1), ev(CFINAL, 1)], |m| {
+history!(c05_g_retired_k2, prefix [A1, evb(CNOTAR, 1, 1)], 2 of [evb(S2N, 1, 2), ev(S2S, 1), ev(TIMEOUT, 2), ev(INVALID, 1), B1, evb(CNOTAR, 1, 1), ev(CFINAL, 1)], |m| {
     vcover!(m.n_final >= 1, "a final vote is cast");
     vcover!(m.n_skip >= 1, "the rest of the window is skipped");
     vcover!(m.n_quiet >= 2, "two events cast no vote");
@@ -691,9 +766,9 @@ history!(c05_w_parent_k2, prefix [], 2 of [RDY_P, RDY_Q, A4, B4, A5, ev(CRASHED,
     vcover!(m.n_skip >= 4, "the window is skipped");
     vcover!(m.n_quiet >= 1, "an event casts no vote");
 });
-history!(c05_w_parent_k3, prefix [], 3 of [RDY_P, RDY_Q, A4, B4, A5, ev(TIMEOUT, 5)], |m| {
-    vcover!(m.n_notar >= 2, "two notar votes are cast in one step (pending block)");
-    vcover!(m.n_notar >= 1 && m.n_skip >= 1, "a notar vote and a skip vote are cast");
+history!(c05_w_parent_k3, prefix [], 3 of [RDY_P, A4, A5, ev(TIMEOUT, 4)], |m| {
+    vcover!(m.n_notar >= 2, "two notar votes are cast in one step (pending blocks)");
+    vcover!(m.n_skip >= 4 && m.n_quiet >= 2, "a pending block is not voted for after the window was skipped");
 });
 history!(c05_w_crashed_k2, prefix [RDY_P], 2 of [ev(FIRST, 4), ev(CRASHED, 4), A4, ev(TIMEOUT, 4), ev(TIMEOUT, 6)], |m| {
     vcover!(m.n_notar >= 1 && m.n_skip >= 3, "a notar vote, then the rest of the window is skipped");
@@ -704,4 +779,20 @@ history!(c05_w_prune_k2, prefix [RDY_P, A4], 2 of [ev(CFINAL, 5), evb(CFAST, 4, 
     vcover!(m.n_final >= 1, "a final vote is cast");
     vcover!(m.n_skip >= 1, "a skip vote is cast");
     vcover!(m.n_quiet >= 1, "an event casts no vote");
+});
+
+// standstill recovery bundles are re-broadcast whatever the state of the slot they name
+history!(c05_standstill_k2, prefix [A1], 2 of [evb(CNOTAR, 1, 1), ev(CFINAL, 5), E { k: STANDSTILL, s: 1, t: 0, ps: 2, pt: 0 }, E { k: STANDSTILL, s: 0, t: 0, ps: 3, pt: 0 }], |m| {
+    vcover!(m.n_rebroadcast >= 2 && m.n_final >= 1, "a bundle is re-broadcast for a retired slot");
+    vcover!(m.n_rebroadcast >= 2 && m.n_ignored == 0 && m.n_final == 0 && m.n_quiet == 0, "a bundle is re-broadcast for a pruned slot");
+    vcover!(m.n_rebroadcast >= 4, "two bundles are re-broadcast");
+});
+// the pool's own slashing check sees every vote of the run
+history!(c05_slash_final_k2, pool true, prefix [A1], 2 of [evb(CNOTAR, 1, 1), evb(S2N, 1, 2), ev(S2S, 1), ev(TIMEOUT, 2), A2], |m| {
+    vcover!(m.n_final >= 1 && m.n_skip >= 1, "final and skip votes are shown to the pool");
+    vcover!(m.n_nf >= 1 && m.n_sf >= 1, "both fallback votes are shown to the pool");
+});
+history!(c05_slash_skip_k2, pool true, prefix [], 2 of [A1, ev(TIMEOUT, 1), evb(S2N, 1, 1), evb(CNOTAR, 1, 1)], |m| {
+    vcover!(m.n_skip >= 3 && m.n_nf >= 1, "skip and notar-fallback votes are shown to the pool");
+    vcover!(m.n_notar >= 1 && m.n_final >= 1, "notar and final votes are shown to the pool");
 });
